@@ -43,7 +43,7 @@
  "tier": "wip",
  "harness": "h_link_proc",
  "enforce": ["link_proc"],
- "defines": ["LP_BS=4096"],
+ "defines": ["LP_BS=256"],
  "sources": ["lib/ext2fs/dir_iterate.c"],
  "unwind": 6,
  "unwindset": {"h_link_proc.0": 257, "strncpy.0": 257},
@@ -69,7 +69,8 @@ struct in_link {
 	unsigned int ino;
 	int flags;			/* low 3 bits: file type */
 	unsigned char done;		/* ls->done on entry */
-	unsigned char csum, filetype;	/* features */
+	unsigned char csum, filetype;	/* features (derived from the two words below) */
+	unsigned int sb_ro_compat, sb_incompat;
 	unsigned int k;			/* ghost byte index into the block */
 	unsigned int j;			/* ghost index into a name */
 	unsigned int dir;
@@ -298,10 +299,11 @@ void h_link_proc(void)
 			ASSUME(IN.name[i] != 0);
 	FS.blocksize = LP_BS;
 	FS.super = &SB;
-	if (IN.csum)
-		SB.s_feature_ro_compat |= EXT4_FEATURE_RO_COMPAT_METADATA_CSUM;
-	if (IN.filetype)
-		SB.s_feature_incompat |= EXT2_FEATURE_INCOMPAT_FILETYPE;
+	/* statics are NOT zero under DFCC (nondet-static): set every field the code reads; the other feature bits stay arbitrary */
+	SB.s_feature_ro_compat = IN.sb_ro_compat;
+	SB.s_feature_incompat = IN.sb_incompat;
+	ASSUME(IN.csum == !!(IN.sb_ro_compat & EXT4_FEATURE_RO_COMPAT_METADATA_CSUM));
+	ASSUME(IN.filetype == !!(IN.sb_incompat & EXT2_FEATURE_INCOMPAT_FILETYPE));
 	BLKS = IN.blk;
 	LS.fs = &FS;
 	LS.name = (const char *)IN.name;
